@@ -400,6 +400,11 @@ pub struct Sched {
     /// (to, message type) pairs that are lost in transit (selective loss used by scripted scenarios)
     pub blocked_types: Vec<(u64, String)>,
     pub w_apply: u32,
+    /// messages that stay in the network for a long time: view-json -> step at which they may be delivered
+    pub held: std::collections::HashMap<String, usize>,
+    pub seen: std::collections::HashSet<String>,
+    pub step_no: usize,
+    pub hold_pct: u32,
     pub proposals_left: usize,
     pub conf_left: usize,
     pub reads_left: usize,
@@ -470,6 +475,10 @@ impl Sched {
             blocked: vec![],
             blocked_types: vec![],
             w_apply: 20,
+            held: Default::default(),
+            seen: Default::default(),
+            step_no: 0,
+            hold_pct: 4,
             next_payload: 1,
             next_ctx: 1,
             tick_ptr: 0,
@@ -720,12 +729,27 @@ impl Sched {
             }
         }
         // network
+        self.step_no += 1;
         if !cl.net.is_empty() {
+            // long delays: a few messages are held back for hundreds of steps and arrive stale
+            for m in cl.net.iter() {
+                let key = serde_json::to_string(&msg_view(m)).unwrap();
+                if self.seen.insert(key.clone()) && self.rng.gen_range(0..100) < self.hold_pct {
+                    let d = self.rng.gen_range(80..450);
+                    self.held.insert(key, self.step_no + d);
+                }
+            }
             let k = cl.net.len().min(6);
             for _ in 0..k {
                 let idx = self.rng.gen_range(0..cl.net.len());
                 let m = &cl.net[idx];
                 let mv = msg_view(m);
+                let key = serde_json::to_string(&mv).unwrap();
+                if let Some(rel) = self.held.get(&key) {
+                    if *rel > self.step_no {
+                        continue;
+                    }
+                }
                 let to_ok = p.ids.contains(&m.to) && cl.is_up(m.to);
                 let idle = to_ok && cl.nodes[cl.slot(m.to)].app.outstanding.is_none();
                 let ty_blocked = self.blocked_types.iter().any(|(t, ty)| *t == m.to && *ty == mv.ty);
